@@ -29,7 +29,7 @@ structure BranchInv (L : LogicData) (s : SState) (bi : Nat) (b : Branch) (h : Br
       (ignoreTicked r = true → i ∉ b.ticked)
   /-- every such node is cached and not queued for release, unless its release condition holds (and it stays dead) -/
   cacheComplete : ∀ r i nd, b.nodes[i]? = some nd → matchesRule r nd = true →
-      (ignoreTicked r = true → i ∉ b.ticked) → i ∈ s.live r bi ∨ releasable L s.maxWorlds b h r i = true
+      (ignoreTicked r = true → i ∉ b.ticked) → i ∈ s.live r bi ∨ releasable L s.maxWorlds s.maxConsts b h r i = true
   /-- every recorded (node, world) pair of `NodesWorlds` has its instance on the branch -/
   nwDone : ∀ k i w', (i, w') ∈ h.nw k → ∃ sn d w r whole l0, b.nodes[i]? = some (.sent sn d w) ∧
       L.ruleFor sn d = some (r, whole, l0) ∧ groupsDone b (instGroups whole l0 w none (some w') r) = true
@@ -89,7 +89,7 @@ def ckCacheSound (b : Branch) (h : BranchH) : Bool :=
 /-- over the nodes and, per node, the rules whose filter it passes (`matching`) -/
 def ckCacheComplete (L : LogicData) (s : SState) (bi : Nat) (b : Branch) (h : BranchH) : Bool :=
   b.nodes.zipIdx.all fun (nd, i) => (matching nd).all fun r =>
-    (ignoreTicked r && b.ticked.contains i) || (s.live r bi).contains i || releasable L s.maxWorlds b h r i
+    (ignoreTicked r && b.ticked.contains i) || (s.live r bi).contains i || releasable L s.maxWorlds s.maxConsts b h r i
 
 def ckNw (L : LogicData) (b : Branch) (h : BranchH) : Bool :=
   h.nws.all fun p => (h.nw p.1).all fun (i, w') =>
